@@ -22,7 +22,7 @@ RULE = ('populations of 0-64 responders (UIDs at 0000:00000000/1/2, ffff:fffffff
         'streams (timeouts, collisions, valid frames of recurring UIDs, mutated frames of every length 0-32, '
         'failure/attempt counters driven to 4/5/6) incl. an endless tail; client histories on an asynchronous line '
         '(full/incremental Starts in any order, a Start while one is running, a Start issued from inside the '
-        'completion callback, Abort() at any point incl. the incremental mute phase, population changes between '
+        'completion callback, Abort() or destruction of the agent at any point incl. the incremental mute phase, population changes between '
         'runs, state carried from run to run) with every completion event (start id, status, UID set) compared; every Branch/MuteDevice/UnMuteAll call '
         'of the real agent is compared with the model (first 120 verbatim, all by hash and count), as are '
         'completion count, status and UID set; non-trivial = run completed and found >= 1 UID; '
@@ -209,7 +209,7 @@ def gen_history(rng):
     pop = gen_pop(rng, n, rng.choice([0, 0, 0, 1]), rng.random() < 0.3)
     pop = [[u, k if not (k & 4) else 0] for u, k in pop]
     ops = ['P:' + pop_s(pop)]
-    style = rng.randrange(6)
+    style = rng.randrange(7)
     def start():
         return 'S' + rng.choice('FI') + rng.choice('nnnfi')
     if style == 0:
@@ -219,6 +219,10 @@ def gen_history(rng):
     elif style == 1:
         # a second Start while one is running; nested Start from the completion callback
         ops += [start(), 'R%d' % rng.randrange(0, 12), start(), 'R*', 'R*', start(), 'R*', 'R*']
+    elif style == 3:
+        # the agent is destroyed while a discovery is in flight (unmute / re-mute / branch phase)
+        ops += ['SFn', 'R*', 'S' + rng.choice('FI') + rng.choice('nfi'),
+                'R%d' % rng.choice([0, 1, 2, 3, 4, 5, 6, 9, 15, 40]), 'D', 'SFn', 'R*']
     elif style == 2:
         # Abort whose callback starts the next run
         ops += ['S' + rng.choice('FI') + rng.choice('fi'), 'R%d' % rng.randrange(0, 40), 'A', 'R*', 'SIn', 'R*']
@@ -228,7 +232,8 @@ def gen_history(rng):
             if r < 0.3: ops.append(start())
             elif r < 0.55: ops.append('R%d' % rng.choice([0, 1, 2, 3, 4, 5, 7, 10, 20, 50, 200]))
             elif r < 0.7: ops.append('R*')
-            elif r < 0.82: ops.append('A')
+            elif r < 0.78: ops.append('A')
+            elif r < 0.82: ops.append('D')
             elif r < 0.9:
                 pop = [p for p in change(rng, pop) if not (p[1] & 4)]
                 ops.append('P:' + pop_s(pop))
